@@ -24,7 +24,7 @@ def make_grammars(rng, n, p_err, conflict_bias=0.0):
             gs.append({"lex": lex, "syn": gram.conflict_rich_syn(rng, terms), "err": False})
             continue
         syn = gram.rand_syn(rng, terms, nnt=rng.choice([1, 2, 2, 3, 3, 4]), max_alts=rng.choice([2, 3]),
-                            max_len=rng.choice([2, 3, 3, 4]), p_empty=rng.choice([0, 0.2, 0.4]),
+                            max_len=rng.choice([2, 3, 3, 4]), p_empty=rng.choice([0, 0.2, 0.4, 0.5]),
                             p_error=0.35 if err else 0.0)
         if rng.random() < 0.08 and len(syn) > 1:
             syn.insert(rng.randrange(len(syn)), syn[rng.randrange(len(syn))])   # duplicate alternative (D9 territory)
